@@ -42,7 +42,7 @@ def gen_treeinfo(rng, R=None):
         d["variants"][t] = gen_variant(rng, t, t)
     if rng.random() < 0.3:                      # dashed top-level UID (the 'Server-optional' case), childless
         t = rng.choice(list(d["variants"]))
-        if "optional" not in d["variants"][t]["children"]:
+        if "optional" not in d["variants"][t]["children"] or d["variants"][t]["children"]["optional"]["type"] == "addon":
             uid = t + "-optional"
             v = gen_variant(rng, "optional", uid, depth=3, vtype="optional")
             d["variants"][uid] = v
@@ -115,7 +115,8 @@ def gen_discinfo(rng):
     return {"timestamp": rng.choice([1440000000.123, 1.0, 12345.678901, float(rng.randint(1, 2 * 10 ** 9)) + 0.5]),
             # single-line text: only "\n" ends a line of the file; other separators and controls inside a value are content
             "description": rng.choice(["Fedora 22", "Red Hat Enterprise Linux 7.9", "x", "Fedora\x0b22", "A\x0cB c", "x\x1cy", "x\x1dy\x1ez",
-                                       "Fedora\x8522", "x\u2028y", "a\u2029b", "tab\there", "caf\u00e9 1.0"]),
+                                       "Fedora\x8522", "x\u2028y", "a\u2029b", "tab\there", "caf\u00e9 1.0",
+                                       "Long" + " description" * 700, "L" * 8170, "w " * 5000 + "end"]),
             "arch": rng.choice(ARCHES[:4] + ["x86\x8564", "ppc\u2028le"]), "disc_numbers": rng.choice([["ALL"], [1], [1, 2, 3], [2]])}
 
 
